@@ -1,4 +1,5 @@
 """C04 - a dying shell is torn down completely, announced once, and the listener re-arms."""
+import json, os
 import brokerlib as B
 import vlib
 
@@ -38,10 +39,30 @@ def check(run):
                  "output flood with a STALLED operator terminal (operator channel of capacity 1-3, never drained), 0-9 chunks in flight, then "
                  "EOF / error / nothing, then client cancel; checked by the monitor only (goroutine dump after every transport is closed must show "
                  "no broker goroutine; the bubble must not dead-lock) - the model does not describe a bounded operator channel")
+    # schedules in which callers queue on the broker's mutex (real scheduler; see harness/overlay/iobroker/zz_verif_race_test.go)
+    outf = os.path.join(run.rundir, "race.json")
+    rounds = 30 if run.tier == "quick" else 1500
+    try:
+        rc, o, e = vlib.sh([binp, "-test.run", "^TestVerifShutdownRace$", "-test.count=1"], cwd=run.rundir, timeout=900,
+                           env=dict(os.environ, VERIF_OUT=outf, VERIF_RACE=str(rounds)))
+        st = json.load(open(outf))
+    except Exception as ex:
+        rc, st = 1, {"error": str(ex)}
+    for b in (st.get("late_attached") or [])[:1]:
+        run.violation("shutdown-race-late-attach", "an attempt made while the program was shutting down was attached: Broker.Do had returned and the stream was "
+                      "still attached and running (terminal stalled inside an admission, shutdown and the attempt queued on the mutex)",
+                      {"stream": "shutdownrace", "input": {"rounds": rounds}, "detail": b})
+    run.oblige("shutdown race: %d rounds (stalled terminal holds the admission section; shutdown and a late attempt queue on the mutex; terminal "
+               "resumes) - once Do has returned nothing is attached" % rounds,
+               rc == 0 and not st.get("late_attached") and "error" not in st, json.dumps(st)[:1500])
+    run.cov["shutdown_race"] = {k: st.get(k) for k in ("rounds", "do_returned_first", "attempt_admitted_first")}
     run.assumptions += ["'nothing keeps running' is observed as: no goroutine with a Broker frame after all readers returned EOF and all contexts were "
                         "cancelled, inside testing/synctest; the proof side covers the bookkeeping (slots, key, wait group)"]
     run.trusted += ["harness/overlay/iobroker", "props/brokerlib.py", "coq/Model/Broker.v tied by this correspondence"]
 
 
 def replay(run, path):
+    if json.load(open(path)).get("case", {}).get("stream") == "shutdownrace":
+        print("scheduler-dependent finding: re-run  bin/check C04 --tier thorough ; detail:", json.load(open(path))["case"].get("detail"))
+        return 1
     return B.replay(run, path, 4)
